@@ -140,6 +140,23 @@ def hsl_fields_read_as_css(project, chk, rule="N5"):
     audit(project, chk, rule, f"{CONV}._parse_hsl_percentage_or_decimal", REF, "pct_or_decimal", Policy(), "S / L percentage scaling", alternatives=["pct_or_decimal_rstrip"])
 
 
+def keyword_strings(e):
+    """Lower-case alphabetic literals (CSS function names / keywords) a value is compared with; None otherwise."""
+    items = e.elts if isinstance(e, (ast.Tuple, ast.List, ast.Set)) else [e]
+    if items and all(isinstance(x, ast.Constant) and isinstance(x.value, str) and x.value.isalpha() and x.value.islower() and len(x.value) >= 3 for x in items):
+        return [x.value for x in items]
+    return None
+
+
+def _subterms(o):
+    yield o
+    if isinstance(o, tuple):
+        for x in o:
+            if isinstance(x, (tuple, frozenset)):
+                for y in (x if isinstance(x, frozenset) else [x]):
+                    yield from _subterms(y)
+
+
 def prefix_strings(org, node, arg):
     """The constant string(s) a startswith/endswith test compares with: a literal, a tuple of literals, or the
     k-th column of a constant table the enclosing loop runs over."""
@@ -160,13 +177,24 @@ def prefix_strings(org, node, arg):
     return None
 
 
+PIECE_METHODS = (".partition", ".rpartition", ".split", ".rsplit", ".rstrip", ".lstrip", ".removeprefix", ".removesuffix")
+
+
 def lowered(o) -> bool:
-    """Origin is .lower() of .strip() of something (case and outer whitespace normalised)."""
+    """Origin is .lower() of .strip() of something (case and outer whitespace normalised), or a piece cut out of such a
+    value (s_lower.partition("(")[0], s_lower[:4]): cutting does not change case."""
     seen_lower = seen_strip = False
-    while o[0] == "call" and o[1] in (".lower", ".strip", ".casefold") and o[4] is not None:
-        seen_lower |= o[1] in (".lower", ".casefold")
-        seen_strip |= o[1] == ".strip"
-        o = o[4]
+    while True:
+        if o[0] == "call" and o[1] in (".lower", ".strip", ".casefold") and o[4] is not None:
+            seen_lower |= o[1] in (".lower", ".casefold")
+            seen_strip |= o[1] == ".strip"
+            o = o[4]
+        elif o[0] in ("item", "index") and isinstance(o[1], tuple):
+            o = o[1]
+        elif o[0] == "call" and o[1] in PIECE_METHODS and o[4] is not None:
+            o = o[4]
+        else:
+            break
     return seen_lower and seen_strip
 
 
@@ -261,6 +289,14 @@ def run(project, chk):
                             weight = len(strs)
                     elif isinstance(c, ast.Compare) and len(c.ops) == 1 and isinstance(c.ops[0], (ast.In, ast.NotIn)) and sc.resolve(c.comparators[0]) == "cm_colors.core.named_colors.CSS_NAMED_COLORS":
                         subj, what = c.left, "in CSS_NAMED_COLORS"
+                    elif isinstance(c, ast.Compare) and len(c.ops) == 1 and isinstance(c.ops[0], (ast.In, ast.NotIn, ast.Eq, ast.NotEq)) and keyword_strings(c.comparators[0]):
+                        # a function name / keyword compared with lower-case literals: `func in ("hsl", "hsla")`, `func == "hsla"`
+                        ks = keyword_strings(c.comparators[0])
+                        so = org.of(node.id, c.left)
+                        from_input = any(t == ("param", fi.params()[0]) for t in _subterms(so))
+                        if from_input:
+                            subj, what = c.left, f"compared with {', '.join(repr(k) for k in ks)}"
+                            weight = len(ks)
                     elif isinstance(c, ast.Subscript) and sc.resolve(c.value) == "cm_colors.core.named_colors.CSS_NAMED_COLORS":
                         subj, what = c.slice, "CSS_NAMED_COLORS[...]"
                     elif isinstance(c, ast.Call) and sc.resolve(c.func) in ("re.fullmatch", "re.match", "re.search") and len(c.args) >= 2 and isinstance(c.args[0], ast.Constant):
